@@ -451,11 +451,34 @@ func checkResolver(p *Prog, r *Report) {
 	var lookupFn *ssa.Function
 	nPaths := 0
 	sawMac, sawNone := false, false
-	for _, s := range PathsInl(g).From(heads[0]) {
+	// the lookup is a closure kept in the generator (one address parameter) or a named function of the
+	// package that also takes the cache and the gateway MAC; a named lookup is judged as a unit, not expanded
+	var namedLookup *ssa.Function
+	for _, b := range g.Blocks {
+		for _, in := range b.Instrs {
+			if c, isC := in.(*ssa.Call); isC {
+				if f := StaticCallee(&c.Call); f != nil && f.Pkg == g.Pkg && f.Signature.Recv() == nil && f.Signature.Results().Len() == 1 &&
+					types.TypeString(f.Signature.Results().At(0).Type(), nil) == "net.HardwareAddr" {
+					namedLookup = f
+				}
+			}
+		}
+	}
+	segs := PathsInl(g).From(heads[0])
+	if namedLookup != nil {
+		segs = Paths(g).From(heads[0])
+	}
+	addrArg := 0
+	var lookSite *ssa.Call
+	for _, s := range segs {
 		var look *Event
 		for _, e := range s.Events {
-			if e.Kind == EvCall && e.Call.Signature().Params().Len() == 1 && e.Call.Signature().Results().Len() == 1 &&
-				types.TypeString(e.Call.Signature().Results().At(0).Type(), nil) == "net.HardwareAddr" {
+			if e.Kind != EvCall || e.Call.Signature().Results().Len() != 1 || types.TypeString(e.Call.Signature().Results().At(0).Type(), nil) != "net.HardwareAddr" {
+				continue
+			}
+			if namedLookup != nil && StaticCallee(e.Call) == namedLookup {
+				look = e
+			} else if namedLookup == nil && e.Call.Signature().Params().Len() == 1 {
 				look = e
 			}
 		}
@@ -469,8 +492,19 @@ func checkResolver(p *Prog, r *Report) {
 				req = rc.Val
 			}
 		}
-		if b, f, isF := fieldLoad(s.Resolve(look.Call.Args[0])); !isF || f != "DstIP" || req == nil || !sameThroughCells(s, b, req) {
-			ok, why = false, "the MAC is looked up for "+sxSeg(s, look.Call.Args[0], 0)+", not the request's own destination"
+		// the address argument: the one of type net.IP
+		addrArg = 0
+		for i, a := range look.Call.Args {
+			if types.TypeString(a.Type(), nil) == "net.IP" {
+				addrArg = i
+			}
+		}
+		lookSite, _ = look.Instr.(*ssa.Call)
+		if b, f, isF := fieldLoad(s.Resolve(look.Call.Args[addrArg])); !isF || f != "DstIP" || req == nil || !sameThroughCells(s, b, req) {
+			ok, why = false, "the MAC is looked up for "+sxSeg(s, look.Call.Args[addrArg], 0)+", not the request's own destination"
+		}
+		if namedLookup != nil {
+			lookupFn = namedLookup
 		}
 		// which function is the lookup: a field of the generator holding a closure
 		if _, f, isF := fieldLoad(s.Resolve(look.Call.Value)); isF {
@@ -544,7 +578,11 @@ func checkResolver(p *Prog, r *Report) {
 			okC, whyC = false, "a path answers without consulting the cache"
 			continue
 		}
-		if get.Call.Args[1] != ssa.Value(lookupFn.Params[0]) {
+		addrPrm := lookupFn.Params[0]
+		if namedLookup != nil && addrArg < len(lookupFn.Params) {
+			addrPrm = lookupFn.Params[addrArg]
+		}
+		if get.Call.Args[1] != ssa.Value(addrPrm) {
 			okC, whyC = false, "the cache is asked about a different address"
 		}
 		k, isNil := s.NilFact(get.Val)
@@ -557,7 +595,15 @@ func checkResolver(p *Prog, r *Report) {
 			}
 		case k && isNil:
 			sawMiss = true
-			if u, isU := rv.(*ssa.UnOp); !isU || u.Op != token.MUL {
+			if prm, isPrm := rv.(*ssa.Parameter); isPrm && namedLookup != nil && lookSite != nil {
+				// named form: the fallback parameter is bound to the generator's gateway field at the call site
+				idx := paramIndex(lookupFn, prm)
+				if idx < 0 || idx >= len(lookSite.Call.Args) {
+					okC, whyC = false, "a cache miss falls back to "+sx(rv, 0)
+				} else if _, f, isF := fieldLoad(lookSite.Call.Args[idx]); !isF || !strings.Contains(strings.ToLower(f), "gateway") {
+					okC, whyC = false, "a cache miss falls back to "+sx(lookSite.Call.Args[idx], 0)
+				}
+			} else if u, isU := rv.(*ssa.UnOp); !isU || u.Op != token.MUL {
 				okC, whyC = false, "a cache miss does not fall back to the gateway MAC"
 			} else if fv, isFV := u.X.(*ssa.FreeVar); !isFV || !strings.Contains(strings.ToLower(fv.Name()), "gateway") {
 				okC, whyC = false, "a cache miss falls back to "+sx(rv, 0)
@@ -568,6 +614,30 @@ func checkResolver(p *Prog, r *Report) {
 	}
 	r.Check(okC && sawHit && sawMiss, "C11.R4", FuncName(lookupFn), p.Pos(lookupFn.Pos()), "the destination's own cache entry wins; only a miss falls back to the gateway MAC", whyC)
 	// the closure captures the constructor's own parameters
+	if namedLookup != nil && lookSite != nil {
+		okF, whyF := true, ""
+		for i, a := range lookSite.Call.Args {
+			if i == addrArg {
+				continue
+			}
+			fv := fieldVarOfLoad(a)
+			if fv == nil {
+				okF, whyF = false, "a lookup argument is not a field of the generator: "+sx(a, 0)
+				continue
+			}
+			st := p.StoresToField(fv)
+			if len(st) == 0 {
+				okF, whyF = false, "field "+fv.Name()+" is never set"
+			}
+			for _, v := range st {
+				if _, isP := v.(*ssa.Parameter); !isP {
+					okF, whyF = false, "field "+fv.Name()+" is set from "+sx(v, 0)+", not from a constructor parameter"
+				}
+			}
+		}
+		r.Check(okF, "C11.R4", FuncName(lookupFn)+"/captures", p.Pos(lookupFn.Pos()), "cache and gateway MAC used by the lookup are the constructor's arguments", whyF)
+		return
+	}
 	ctor := lookupFn.Parent()
 	okP := ctor != nil
 	if ctor != nil {
